@@ -70,6 +70,42 @@ def is_props_op(b, n):
     return "drf_properties" in P.show_op(b.ops[n - 1][0])
 
 
+def with_style_leg(res, b):
+    """the recorder written as `with DigitalRFWriter(...) as w:` without a try/except of its own: a call that raises
+    inside the block (an injected I/O failure; a refused re-write) abandons the block -- and the exception must
+    leave the with statement, or nobody ever learns of it (the writer is closed by then)"""
+    sp = b.sp
+    cands = [e["n"] for e in P.numbered(b.evs) if str(e.get("call") or "").startswith("write")]
+    if not cands:
+        return
+    step = max(1, len(cands) // (3 if res.tier == "quick" else 12))
+    runs = [(dict(sp, with_style=2), None)] + [(dict(sp, with_style=1), n) for n in cands[::step]]
+    for spw, n in runs:
+        work = os.path.join(b.work, "with_%s" % n)
+        os.makedirs(work)
+        top = os.path.join(work, "top")
+        if n is None:
+            outc, rc, err = P.run_writer(spw, top)
+        else:
+            outc, rc, err = P.run_writer(spw, top, log=os.path.join(work, "log.txt"), fail_at=n, errno=28, persist=0)
+        oc = {o["call"]: o for o in outc}
+        res.count("with-style-recorder" + ("-under-fault" if n is not None else "-refused-rewrite"))
+        res.case(("with-style", sp["name"], n), nontrivial=True)
+        if "end" not in oc:
+            continue                      # the process died: judged by the main leg
+        abandoned = "init" in oc and "block-completed" not in oc
+        if abandoned and "escaped" not in oc:
+            res.violation("exception-swallowed-by-with-block", "a call raised inside `with DigitalRFWriter(...)` (the block was "
+                          "abandoned) but no exception left the with statement: the failure is silent",
+                          {"recording": sp["name"], "spec": spw, "fail_op": n, "errno": 28, "persistent": 0, "with_style": spw["with_style"]},
+                          "the exception propagates out of the with statement", [o["call"] for o in outc])
+            return
+        if spw["with_style"] == 2 and "rewrite-accepted" in oc:
+            res.violation("exception-swallowed-by-with-block", "writing the same samples again inside the with block was accepted",
+                          {"recording": sp["name"], "spec": spw, "fail_op": None, "with_style": 2}, "ValueError", [o["call"] for o in outc])
+            return
+
+
 def one_fault(args):
     b, n, errno, persist = args
     sp = b.sp
@@ -255,6 +291,9 @@ def one_recording(res, sp):
     b = P.baseline(res, sp)
     if b.ops is None:
         return
+    if not getattr(one_recording, "_with_done", False):
+        one_recording._with_done = True
+        with_style_leg(res, b)
     if b.vp is None:
         # the fault-free trace is no longer the model's (reported as such by the baseline): the schedules are still run,
         # judged by the property's oracle alone -- that is the search for a failing input
@@ -356,6 +395,18 @@ def replay(res, rp):
         return 0
     work = common.scratch_dir("c10replay-")
     top = os.path.join(work, "top")
+    if inp.get("with_style"):
+        if inp.get("fail_op") is None:
+            outc, rc, err = P.run_writer(sp, top)
+        else:
+            outc, rc, err = P.run_writer(sp, top, log=os.path.join(work, "log"), fail_at=inp["fail_op"], errno=inp["errno"], persist=0)
+        calls = [o["call"] for o in outc]
+        print("recorder written as `with DigitalRFWriter(...) as w:` (no try/except of its own);",
+              "operation %s fails with errno 28 once" % inp["fail_op"] if inp.get("fail_op") else "the second call writes the first samples again")
+        print("what the recorder reports:", calls)
+        bad = ("init" in calls and "block-completed" not in calls and "escaped" not in calls) or "rewrite-accepted" in calls
+        print("replay verdict:", "STILL VIOLATING (the block was abandoned, no exception left the with statement)" if bad else "no longer violating")
+        return 1 if bad else 0
     outc, rc, err = P.run_writer(sp, top, log=os.path.join(work, "log"), fail_at=inp["fail_op"], errno=inp["errno"],
                                  persist=inp["persistent"])
     print("fault: operation %d (%s) fails with errno %d%s" % (inp["fail_op"], inp.get("operation"), inp["errno"],
